@@ -884,6 +884,11 @@ pub fn check_main(prop: Prop, tier: Tier, seed: u64) -> i32 {
         disputes.len(),
         wall
     );
+    let truncated = stats.counters.get("runs.truncated-by-foreign-violation").copied().unwrap_or(0);
+    if runs_done > 0 && truncated * 4 > runs_done {
+        let which: Vec<String> = stats.counters.iter().filter(|(k, _)| k.starts_with("foreign.")).map(|(k, v)| format!("{} x{}", k.trim_start_matches("foreign."), v)).collect();
+        println!("note: {truncated} of {runs_done} runs were cut short because a monitor of ANOTHER property failed first ({}); {} was explored only up to that point in those runs", which.join(", "), prop.id());
+    }
     if !harness.is_empty() {
         for h in harness.iter().take(5) {
             eprintln!("harness error: {h}");
